@@ -8,10 +8,11 @@
   * `call_x3Q`: a `call` executes an item of non-zero size (the `jmp`): the machine makes a REAL transition,
     also when it is ahead of the statement boundary by labels and comments (`Tol`).
   These are `store_x3`, `store_mid`, `let_x3`, `create_x3`, `call_x3` of the fork `Scc.X86.Ref.K` with one more
-  conjunct each (same proofs).
+  conjunct each (same proofs).  `store_midP`, `let_x3P`, `create_x3P` also export the program counters in between
+  (`MidS` / `Mid`, Scc/X86/ConcKMid.lean: no state strictly between the boundaries is at a `#ctx` comment; gap
+  (4b) of `C09_x86_monitor_statement`); `call_x3M` (Scc/X86/ConcKMCall.lean) is the `call` lemma with `Mid`.
 -/
-import Scc.X86.ConcPeak
-import Scc.X86.RefClosHRun
+import Scc.X86.ConcKMCall
 
 set_option linter.unusedVariables false
 set_option linter.unusedSimpArgs false
@@ -22,19 +23,6 @@ open Scc Scc.AxCut Scc.AxCut.Pos Scc.Backend Scc.Backend.Abs Scc.Backend.Sim Scc
 open Scc.Backend.Keys
 open Scc.Heap (HState InvS InvW)
 open Scc.Heap.Refine (HRef imgW fieldImg kindB href_store FrLe Room frLe_store FrPk frPk_store)
-
-/-- an item of non-zero size at the program counter is not a label or a comment -/
-theorem not_noop_of_xat {cs : List Code} {pc : Nat} {code : Code} {rest : List Code}
-    (h : XAt cs pc (code :: rest)) (hs : codeSize code ≠ 0) : ¬ NoopAt cs pc := by
-  obtain ⟨cs1, rest', e, hl⟩ := h
-  rintro ⟨c, hc, hz⟩
-  have : cs[pc]? = some code := by
-    rw [e, ← hl]
-    simp
-  rw [this] at hc
-  injection hc with hc
-  subst hc
-  exact hs hz
 
 /-- THE ABSTRACT `store` (at least one field) AGAINST `Memory::store` -/
 theorem store_x3P {F : Frame} (H : FrameOK F) (h8 : F.c.heapBase % 8 = 0) {la : String → Option Nat}
@@ -232,7 +220,8 @@ theorem store_midP {P : Program} {Γ : Ctx} {N : Nat} (hNle : N ≤ Γ.length) {
       (∀ t, t < 2 * N → tempVal F.sp st1 (posTemp t) = tempVal F.sp st0 (posTemp t)) ∧
       ((Γ.drop N = [] ∧ cA.heap = cfg.heap ∧ κ' = κ ∧ cA.temps.get (2 * N) = some 0) ∨
        (Γ.drop N ≠ [] ∧ cA.heap = (cfg.next, ⟨0, fields⟩) :: cfg.heap ∧ κ' = storeK F st0 κ cfg.next N ∧
-        cA.temps.get (2 * N) = some (BitVec.ofNat 64 cfg.next))) ∧ FrPk hs hs' := by
+        cA.temps.get (2 * N) = some (BitVec.ofNat 64 cfg.next))) ∧ FrPk hs hs' ∧ MidS mon px cs n1 st0 := by
+  have hncst := noCtx_store hstX
   have hlenTake : (Γ.take N).length = N := by simp [Nat.min_eq_left hNle]
   have hbne : (b.chi != Chi.ext) = true := (Scc.Backend.Sim2.chi_bne_ext _).mpr hb
   cases hΔ : Γ.drop N with
@@ -261,14 +250,14 @@ theorem store_midP {P : Program} {Γ : Ctx} {N : Nat} (hNle : N ≤ Γ.length) {
       exact ⟨e1, e2⟩
     obtain ⟨rfl, rfl⟩ := hcode
     rw [← hmon] at hx
-    obtain ⟨n1, steps1, hn1⟩ := x_steps_fwd mon L hnd hat1.left hx
+    obtain ⟨n1, steps1, hn1, hm1⟩ := x_steps_fwdM mon L hnd hat1.left hx hncst
     have h2n : cA.temps.get (2 * N) = some 0 := by
       rw [hA]; simp only; exact get_set_same _ _ _
     refine ⟨_, hs, ι, κ, n1, hn1, rfl, ?_, ?_, by rw [hA], by
       rw [hNΓ, Nat.sub_self]; exact Scc.Heap.Refine.FrLe.refl hs, by rw [hA], by rw [hA]; exact Nat.le_succ _,
       fun t ht => hlow t (by omega),
       fun t ht => by rw [tempVal_setPS]; exact hkeepE t (by omega),
-      Or.inl ⟨rfl, by rw [hA], rfl, h2n⟩, FrPk.refl hs⟩
+      Or.inl ⟨rfl, by rw [hA], rfl, h2n⟩, FrPk.refl hs, hm1⟩
     · have hr : rootOf cA.temps b N = [] := by
         unfold rootOf; rw [h2n]; simp
       rw [hr, List.append_nil, roots_congr _ _ _ (fun i hi => hlow (2 * i) (by omega))]
@@ -306,7 +295,7 @@ theorem store_midP {P : Program} {Γ : Ctx} {N : Nat} (hNle : N ≤ Γ.length) {
       exact ⟨e1, e2⟩
     obtain ⟨rfl, rfl⟩ := hcode
     rw [← hmon] at hx
-    obtain ⟨n1, steps1, hn1⟩ := x_steps_fwd mon L hnd hat1.left hx
+    obtain ⟨n1, steps1, hn1, hm1⟩ := x_steps_fwdM mon L hnd hat1.left hx hncst
     have h2n : cA.temps.get (2 * N) = some (BitVec.ofNat 64 cfg.next) := by
       rw [hA]; simp only; exact get_set_same _ _ _
     have hr0 : BitVec.ofNat 64 cfg.next ≠ 0 := ofNat_ne_zero X0.href.abs.pos hnext
@@ -314,7 +303,7 @@ theorem store_midP {P : Program} {Γ : Ctx} {N : Nat} (hNle : N ≤ Γ.length) {
     refine ⟨_, hs', (fun i => if i = cfg.next then p else ι i), storeK F st0 κ cfg.next N, n1, hn1, rfl, ?_, ?_,
       by rw [hA], hfrS, by rw [hA], by rw [hA]; exact Nat.le_refl _, hlow,
       fun t ht => by rw [tempVal_setPS]; exact hkeepS t ht,
-      Or.inr ⟨by simp, by rw [hA], rfl, h2n⟩, hpkS⟩
+      Or.inr ⟨by simp, by rw [hA], rfl, h2n⟩, hpkS, hm1⟩
     · have hr : rootOf cA.temps b N = [cfg.next] := by
         unfold rootOf
         rw [h2n]
@@ -359,7 +348,7 @@ theorem create_x3P (LA : LoadedA F.c px cs) {P : Program} {hooks : Bool} {prog :
         ∃ a w, cfg'.temps.get (2 * (Γ.length - Γc.length) + 1) = some (BitVec.ofNat 64 a) ∧
           tempVal F.sp st' (posTemp (2 * (Γ.length - Γc.length) + 1)) = some w ∧
           MethodsAt P hooks prog.types a (Γ.drop (Γ.length - Γc.length)) clauses ∧
-          XMethodsAt F.c cs hooks prog.types w (Γ.drop (Γ.length - Γc.length)) clauses := by
+          XMethodsAt F.c cs hooks prog.types w (Γ.drop (Γ.length - Γc.length)) clauses ∧ Mid mon px cs n st := by
   obtain ⟨cfg', hst, hout', hnx', R'⟩ := sim2_create R hk hkeys hfresh hcap hnext
   -- the mock code at the program counter (as in `sim2_create`)
   obtain ⟨c, c', ops, hrunM, hatM⟩ := R.code
@@ -430,7 +419,7 @@ theorem create_x3P (LA : LoadedA F.c px cs) {P : Program} {hooks : Bool} {prog :
   obtain ⟨fields, hf, hrep, hch⟩ := readFields_ok2 (Γ.drop N) (ρ.drop N) N (R.vals.slice N) hlenρ
   have hlenTake : (Γ.take N).length = N := hn
   -- the store on both machines
-  obtain ⟨st1, hs', ι', κ', n1, hn1, hpc1, X1, hptr1, hpcA, hfrM, _, _, hlowM, hmachM, hobjM, hpkM⟩ :=
+  obtain ⟨st1, hs', ι', κ', n1, hn1, hpc1, X1, hptr1, hpcA, hfrM, _, _, hlowM, hmachM, hobjM, hpkM, hm1⟩ :=
     store_midP H h8 hmon L hnd hNle (b := ⟨x, .cns, ty⟩) (by intro h; cases h) X0 hstore hsA hf (hch 0) hnext
       (by rw [show Γ.length - N = Γc.length by omega]; exact hroom) hstX hat1
   -- the table label in the loaded routine
@@ -486,10 +475,15 @@ theorem create_x3P (LA : LoadedA F.c px cs) {P : Program} {hooks : Bool} {prog :
   have hκeq : storeK F st0 κ cfg.next N = storeK F st κ cfg.next N := by
     funext i j
     simp only [storeK, hst0]
+  have hmid : Mid mon px cs _ st := Mid.trans (mid_comments mon L hatA.left hc0c (by
+      rw [← hc0]; exact noCtx_tail_hook hooks Γ (by
+        simp only [String.append_assoc]; exact not_isCtx_lit_head _ _ (c := 'c') (by decide) (by decide)))) hk0
+    (MidS.trans hm1 hn1 (midS_straight mon L hat2.left hx2'
+      (NoCtx.cons (by nc_item) (noCtx_loadLabel _ _)))) (by rw [← hc0]; exact hookCode_length_pos _ _ _)
   refine ⟨cB, _, hs', ι', κ', _, ⟨cA, hsA, cB, hsB, rfl⟩, stepN_trans mon px hk0 (stepN_trans mon px hn1 hk2),
     by rw [show Γ.length - N = Γc.length by omega] at hfrM; exact hfrM, hpkM,
     hout', hnx', R', ?_, kst + 1, k5X, c3X, h3X, ?_, ?_, cfg.pc + 1 + 1 + instrCount c3,
-    BitVec.ofNat 64 (addrAt F.c.codeBase cs idx), ?_, ?_, ?_, ?_⟩
+    BitVec.ofNat 64 (addrAt F.c.codeBase cs idx), ?_, ?_, ?_, ?_, hmid⟩
   · show X3R F _ cB (roots _ cB.temps) hs' ι' κ' _
     rw [hrootsB]
     exact X3R.setPS X2 _ _
@@ -545,7 +539,7 @@ theorem let_x3P {P : Program} {hooks : Bool} {prog : AxCut.Prog} {Γ : Ctx} {ρ 
       X3 F (Γ.take (Γ.length - args.length) ++ [⟨x, .prd, ty⟩]) cfg' hs' ι' κ' st' ∧
       ∃ k1 k1' items', (codeStatementR x86Backend hooks natRen prog.types next
           (Γ.take (Γ.length - args.length) ++ [⟨x, .prd, ty⟩])).run k1 = .ok (items', k1') ∧
-        XAt cs st'.pc items' ∧ LetProv F Γ (Γ.length - args.length) cfg cfg' κ κ' st st' := by
+        XAt cs st'.pc items' ∧ LetProv F Γ (Γ.length - args.length) cfg cfg' κ κ' st st' ∧ Mid mon px cs n st := by
   obtain ⟨cfg', hst, hout', hnx', R'⟩ := sim2_let R hk hfresh hpos hcap hnext
   -- the mock code at the program counter (as in `sim2_let`)
   obtain ⟨c, c', ops, hrunM, hatM⟩ := R.code
@@ -625,7 +619,8 @@ theorem let_x3P {P : Program} {hooks : Bool} {prog : AxCut.Prog} {Γ : Ctx} {ρ 
       (∀ t, t < 2 * N → tempVal F.sp st1 (posTemp t) = tempVal F.sp st0 (posTemp t)) ∧
       ((Γ.drop N = [] ∧ cA.heap = cfg.heap ∧ κ' = κ ∧ cA.temps.get (2 * N) = some 0) ∨
        (Γ.drop N ≠ [] ∧ cA.heap = (cfg.next, ⟨0, fields⟩) :: cfg.heap ∧ κ' = storeK F st0 κ cfg.next N ∧
-        cA.temps.get (2 * N) = some (BitVec.ofNat 64 cfg.next))) ∧ FrPk hs hs' := by
+        cA.temps.get (2 * N) = some (BitVec.ofNat 64 cfg.next))) ∧ FrPk hs hs' ∧ MidS mon px cs n1 st0 := by
+    have hncst := noCtx_store hstX
     cases hΔ : Γ.drop N with
     | nil =>
       have hNΓ : N = Γ.length := by
@@ -652,14 +647,14 @@ theorem let_x3P {P : Program} {hooks : Bool} {prog : AxCut.Prog} {Γ : Ctx} {ρ 
         exact ⟨e1, e2⟩
       obtain ⟨rfl, rfl⟩ := hcode
       rw [← hmon] at hx
-      obtain ⟨n1, steps1, hn1⟩ := x_steps_fwd mon L hnd hat1.left hx
+      obtain ⟨n1, steps1, hn1, hm1⟩ := x_steps_fwdM mon L hnd hat1.left hx hncst
       have h2n : cA.temps.get (2 * N) = some 0 := by
         rw [hA]; simp only; exact get_set_same _ _ _
       refine ⟨_, hs, ι, κ, n1, hn1, rfl, ?_, ?_, by rw [hA], by
         have : args.length = 0 := by omega
         rw [this]; exact Scc.Heap.Refine.FrLe.refl hs, fun t ht => hlow t (by omega),
         fun t ht => by rw [tempVal_setPS]; exact hkeepE t (by omega),
-        Or.inl ⟨rfl, by rw [hA], rfl, h2n⟩, FrPk.refl hs⟩
+        Or.inl ⟨rfl, by rw [hA], rfl, h2n⟩, FrPk.refl hs, hm1⟩
       · have hr : rootOf cA.temps ⟨x, .prd, ty⟩ N = [] := by
           unfold rootOf; rw [h2n]; simp
         rw [hr, List.append_nil, roots_congr _ _ _ (fun i hi => hlow (2 * i) (by omega))]
@@ -697,7 +692,7 @@ theorem let_x3P {P : Program} {hooks : Bool} {prog : AxCut.Prog} {Γ : Ctx} {ρ 
         exact ⟨e1, e2⟩
       obtain ⟨rfl, rfl⟩ := hcode
       rw [← hmon] at hx
-      obtain ⟨n1, steps1, hn1⟩ := x_steps_fwd mon L hnd hat1.left hx
+      obtain ⟨n1, steps1, hn1, hm1⟩ := x_steps_fwdM mon L hnd hat1.left hx hncst
       have h2n : cA.temps.get (2 * N) = some (BitVec.ofNat 64 cfg.next) := by
         rw [hA]; simp only; exact get_set_same _ _ _
       have hr0 : BitVec.ofNat 64 cfg.next ≠ 0 := ofNat_ne_zero X.href.abs.pos hnext
@@ -705,7 +700,7 @@ theorem let_x3P {P : Program} {hooks : Bool} {prog : AxCut.Prog} {Γ : Ctx} {ρ 
       refine ⟨_, hs', (fun i => if i = cfg.next then p else ι i), storeK F st0 κ cfg.next N, n1, hn1, rfl, ?_, ?_, by rw [hA], by
         rw [show Γ.length - N = args.length by omega] at hfrS; exact hfrS, hlow,
         fun t ht => by rw [tempVal_setPS]; exact hkeepS t ht,
-        Or.inr ⟨by simp, by rw [hA], rfl, h2n⟩, hpkS⟩
+        Or.inr ⟨by simp, by rw [hA], rfl, h2n⟩, hpkS, hm1⟩
       · have hr : rootOf cA.temps ⟨x, .prd, ty⟩ N = [cfg.next] := by
           unfold rootOf
           rw [h2n]
@@ -722,7 +717,7 @@ theorem let_x3P {P : Program} {hooks : Bool} {prog : AxCut.Prog} {Γ : Ctx} {ρ 
         unfold imgWord
         rw [if_neg hr0, hrt]
         simp
-  obtain ⟨st1, hs', ι', κ', n1, hn1, hpc1, X1, hptr1, hpcA, hfrM, hlowM, hmachM, hobjM, hpkM⟩ := mid
+  obtain ⟨st1, hs', ι', κ', n1, hn1, hpc1, X1, hptr1, hpcA, hfrM, hlowM, hmachM, hobjM, hpkM, hm1⟩ := mid
   -- the tag
   have hB := step_li P cA (2 * N + 1) pos (by rw [hpcA]; exact hli) (by unfold Mock.T_TEMP; omega)
   rw [hsB] at hB
@@ -757,8 +752,13 @@ theorem let_x3P {P : Program} {hooks : Bool} {prog : AxCut.Prog} {Γ : Ctx} {ρ 
     · exact roots_congr _ _ _ (fun i hi => hgetB (2 * i) (by omega) (by rw [hlenTake] at hi; omega))
     · unfold rootOf
       rw [hgetB (2 * N) (by omega) (by omega)]
+  have hmid : Mid mon px cs _ st := Mid.trans (mid_comments mon L hatA.left hc0c (by
+      rw [← hc0]; exact noCtx_tail_hook hooks Γ (by
+        simp only [String.append_assoc]; exact not_isCtx_lit_head _ _ (c := 'l') (by decide) (by decide)))) hk0
+    (MidS.trans hm1 hn1 (midS_straight mon L hat2.left hx2'
+      (NoCtx.cons (by nc_item) (noCtx_loadImmediate _ _)))) (by rw [← hc0]; exact hookCode_length_pos _ _ _)
   refine ⟨cB, _, hs', ι', κ', _, ⟨cA, hsA, cB, hsB, rfl⟩, stepN_trans mon px hk0 (stepN_trans mon px hn1 hk2), hfrM, hpkM,
-    hout', hnx', R', ?_, kst, k6X, c3X, h3X, ?_, ?_⟩
+    hout', hnx', R', ?_, kst, k6X, c3X, h3X, ?_, ?_, hmid⟩
   rotate_right
   · -- what happened to the positions and the heap
     have hκeq : storeK F st0 κ cfg.next N = storeK F st κ cfg.next N := by
